@@ -22,7 +22,7 @@ PID = "C17"
 BOUNDS = ("path = k segments (k<=4 quick; thorough adds k=5 for 10 seeded length vectors of the first three segments per route and spelling), each 0..3 chars over {. q z _}; spelling in "
           "{relative, absolute under the working directory, double-slash absolute}; root directory name 2 chars over {q z _} "
           "directly below the working directory (or one level deeper); routes POST /script, /lineage, /directory with f or d, or with BOTH (2+2 segments quick, 2+3 / 3+2 thorough, five spelling pairs, either key order), "
-          "GET /<path>; POSIX paths, no symlinks")
+          "GET /<path> with the static folder under a symbolic 2-character name in the scratch tree; POSIX paths, no symlinks")
 STUBS = ["pathlib.Path, os, open, json, mimetypes as seen by sqllineage.drawing and sqllineage.utils.helpers -> LxPath model "
          "(worst-case environment: every path exists and can be read)",
          "sqllineage.runner.LineageRunner as seen by the /lineage route -> inert object (analysis is beyond the I/O boundary)"]
@@ -113,7 +113,8 @@ class PathOb(Obligation):
             hp.Path = P.LxPath
         dr.mimetypes = MimeShim()
         rn.LineageRunner = DummyRunner
-        self.static = P.LxPath(real_os.path.dirname(dr.__file__)).joinpath(P.LxPath("build"))
+        if not hasattr(dr, "STATIC_FOLDER"):
+            raise HarnessError("boundary symbol sqllineage.drawing.STATIC_FOLDER is gone")
 
     def body(self):
         P, dr = self.P, self.dr
@@ -162,7 +163,12 @@ class PathOb(Obligation):
             js = JsonShim({})
             dr.json = js
             environ = {"REQUEST_METHOD": "GET", "PATH_INFO": SymStr.const("/") + text if self.form == "rel" else text}
-            allowed = self.static
+            # the static folder is placed in the scratch tree under a SYMBOLIC name (an absolute STATIC_FOLDER replaces the
+            # package directory in the app's joinpath), so that a sibling whose name merely starts with it is expressible
+            staticname = SymStr.var("static", 2, ROOT_ALPHA)
+            dr.STATIC_FOLDER = SymStr.const(cwd + "/st/") + staticname
+            allowed = P.LxPath(dr.STATIC_FOLDER)
+            P.KNOWN_DIRS[:] = [P.LxPath(cwd), P.LxPath(cwd + "/st"), allowed]
         escaped = None
         try:
             app(environ, lambda s, h: status.append(s))
@@ -178,7 +184,8 @@ class PathOb(Obligation):
                     break
         return Verdict(bad is None, {"method": self.method, "route": self.route, "param": self.param, "text": environ["PATH_INFO"] if self.method == "GET" else text,
                                      "payload": dict(payload) if self.method == "POST" else None,
-                                     "rootname": rootname, "deep_root": self.deep_root, "status": status[:1], "event": bad,
+                                     "rootname": rootname, "staticname": staticname if self.method == "GET" else None,
+                                     "deep_root": self.deep_root, "status": status[:1], "event": bad,
                                      "escaped": escaped},
                        nontrivial=bool(P.EVENTS))
 
@@ -222,6 +229,12 @@ try:
     with open(os.path.join(rootdir, "inside.sql"), "w") as f: f.write("select 1 from inside_tab")
     MARK = "MARKERZ9"
     text = c["text"]
+    if c["method"] == "GET":
+        staticdir = os.path.join(CWD, "st", c["staticname"])
+        os.makedirs(staticdir, exist_ok=True)
+        with open(os.path.join(staticdir, "index.html"), "w") as f: f.write("<html>inside</html>")
+        dr.STATIC_FOLDER = staticdir
+        rootdir = staticdir            # what counts as inside for the planting below
     def plant(target, as_dir):
         # worst-case environment: every directory the spelled path walks through exists (so 'x/..' resolves)
         segs = [x for x in target.split("/") if x not in ("", ".")]
@@ -267,7 +280,7 @@ try:
         env = {"REQUEST_METHOD": "POST", "PATH_INFO": c["route"], "CONTENT_LENGTH": str(len(body)), "wsgi.input": io.BytesIO(body)}
     else:
         # GET: whatever the path resolves to relative to the static folder or, if absolute, by itself
-        static = os.path.join(os.path.dirname(dr.__file__), "build")
+        static = staticdir
         p = text
         tgt = None
         stripped = p.strip("/")
@@ -296,7 +309,7 @@ try:
         tried, sys._lx_audit = sys._lx_audit, None
     blob = b"".join(out)
     norm = lambda p: "/" + os.path.normpath(os.path.join(CWD, p)).lstrip("/")  # POSIX normpath keeps a leading '//'
-    allowed = rootdir if c["method"] == "POST" else os.path.join(os.path.dirname(dr.__file__), "build")
+    allowed = rootdir
     CONFIG_NAMES = (".sqlfluff", "setup.cfg", "tox.ini", "pep8.ini", "pyproject.toml", ".sqlfluffignore")
     # what counts: open() of a non-directory and scandir() (pathlib's iterdir); sqlfluff's own configuration
     # discovery (os.listdir of the working directory's ancestors, its config file names) does not
